@@ -36,6 +36,20 @@ FvsViol(g, out) ==
   \cup (IF IsForest(g, EIdx(g)) /\ Len(out) # 0 THEN {"forest-but-nonempty"} ELSE {})
 
 
+\* families too large to be logged edge by edge (see h_comp fvs_family): closed forms of "G - S has a cycle"
+\*   wheel a    : hub 0, rim 1..a in a cycle, spokes.   hubtri a b : hub 0, triangles (0, 2i-1, 2i), leaves 2a+1..2a+b
+FvsFamViol(ev) ==
+  LET S == {ev.out[k] : k \in 1..Len(ev.out)}
+      n == IF ev.fam = "wheel" THEN ev.a + 1 ELSE 2 * ev.a + ev.b + 1
+      nxt(i) == IF i = ev.a THEN 1 ELSE i + 1
+      cyc == IF ev.fam = "wheel"
+               THEN IF 0 \in S THEN \A i \in 1..ev.a : i \notin S
+                    ELSE \E i \in 1..ev.a : i \notin S /\ nxt(i) \notin S
+               ELSE 0 \notin S /\ \E i \in 1..ev.a : (2 * i - 1) \notin S /\ (2 * i) \notin S
+  IN   (IF ~(S \subseteq 0..(n - 1)) THEN {"not-a-vertex"} ELSE {})
+  \cup (IF Cardinality(S) # Len(ev.out) THEN {"duplicate-vertex"} ELSE {})
+  \cup (IF cyc THEN {"remaining-graph-has-cycle"} ELSE {})
+
 \* ---------------- C12 shortest-path trees ------------------------------------------
 \* t = [s |-> root, dist |-> seq (position v+1; -1 = no node; -2 = not exactly representable),
 \*      pred |-> seq of edge indices (0 = none), first |-> seq of vertices (-1 = no node)]
